@@ -284,7 +284,8 @@ Lemma ev_method_eq ctx a x name args ns s :
   elist ctx args s1 (fun vs s2 =>
     match ns, v with
     | true, VNil => Done VNil s2
-    | _, _ => lift (aloc a) s2 (fetch_fn fe v name) (fun id => do_call fe (aloc a) false id v vs s2)
+    | _, _ => if ns && fetch_fn_zero v name then Done VNil s2
+              else lift (aloc a) s2 (fetch_fn fe v name) (fun id => do_call fe (aloc a) false id v vs s2)
     end)).
 Proof. reflexivity. Qed.
 
